@@ -88,9 +88,13 @@ def check(ctx):
   helpers += [f for f in prog.all_funcs if f.module.rel == BIN and f.cls is not None and f.cls.name == 'BinaryWriter']
   wire.fresh_stream_rules(ctx, 'C15.R2', ks, helpers)
   wire.transport_len_rules(ctx, 'C15.R2')
+  wire.complete_write_rules(ctx, 'C15.R2')
   r3(ctx)
   r4(ctx, bh, pr)
   r5(ctx)
+  from . import c11
+  ctx.rule('C11.R3', 'shared with C11: a correlation id is released only by the reply path or for a never-written request (Kafka has no discard message)')
+  c11.r2_r3(ctx)
 
 
 def fold_consts(prog, f, lf):
@@ -353,6 +357,27 @@ def r5(ctx):
         src = [st for st in ast.walk(fn.node) if isinstance(st, ast.Assign) and isinstance(st.targets[0], ast.Name) and st.targets[0].id == cnt]
         ok = len(src) == 1 and call_attr(src[0].value) == 'ReadInt32' and src[0].lineno < lp.lineno
       ctx.ob('C15.R5', fn, 'array loop over its int32 count %s' % U(it), ok, 'loop iterates %s' % U(it), 'arrays are prefixed by their int32 element count')
+  # every iteration consumes its whole entry: no early exit of a decode loop ahead of reads of the same entry
+  for fn in (f, g):
+    for lp in [n for n in ast.walk(fn.node) if isinstance(n, ast.For)]:
+      exits = []
+      def own(stmts, acc):
+        for st in stmts:
+          if isinstance(st, (ast.Continue, ast.Break, ast.Return)):
+            acc.append(st)
+          elif isinstance(st, (ast.For, ast.While)):
+            for x in ast.walk(st):
+              if isinstance(x, ast.Return):
+                acc.append(x)
+          else:
+            for fld in ('body', 'orelse', 'finalbody', 'handlers'):
+              own(getattr(st, fld, []) or [], acc)
+      own(lp.body, exits)
+      reads = [c for c in ast.walk(lp) if isinstance(c, ast.Call) and isinstance(c.func, ast.Attribute) and U(c.func.value) == 'reader']
+      bad = [e for e in exits if any((c.lineno, c.col_offset) > (e.lineno, e.col_offset) for c in reads)]
+      ctx.ob('C15.R5', fn, 'loop over %s consumes each entry completely' % U(lp.iter), not bad,
+             'early %s at line %s skips reads of the same entry' % ([type(b).__name__.lower() for b in bad], [int(b.lineno) for b in bad]),
+             'skipping part of an entry leaves the reader inside it: every later field is decoded from the wrong bytes', nontrivial=False)
   # tuple construction order
   def fields_of(name):
     m = prog.module(KP)
